@@ -348,7 +348,9 @@ func (c *throttlingTrafficShapingController) PerformChecking(arg interface{}, ba
 		msg := fmt.Sprintf("hotspot throttling check blocked, threshold is <= 0, arg: %v", arg)
 		return base.NewTokenResultBlockedWithCause(base.BlockTypeHotSpotParamFlow, msg, c.BoundRule(), nil)
 	}
-	intervalCostTime := int64(math.Round(float64(batchCount * c.durationInSec * 1000 / tokenCount)))
+	// Round the interval up to whole milliseconds: the integer division used to truncate it (to 333 ms
+	// for 3 per second, to 0 - no pacing at all - for more than 1000 per second).
+	intervalCostTime := int64(math.Ceil(float64(batchCount*c.durationInSec*1000) / float64(tokenCount)))
 	for {
 		currentTimeInMs := int64(util.CurrentTimeMillis())
 		lastPassTimePtr := timeCounter.AddIfAbsent(arg, &currentTimeInMs)
